@@ -44,7 +44,7 @@ type c13Op struct {
 }
 
 type c13Input struct {
-	Kind      string           `json:"kind"` // hist | doc | conc | slow | fcfile | trace | inject
+	Kind      string           `json:"kind"` // hist | doc | conc | slow | life | retain | fcfile | trace | inject
 	Cache     []byte           `json:"cache,omitempty"`
 	ReadFail  bool             `json:"read_fail,omitempty"`
 	InitWFail bool             `json:"init_write_fail,omitempty"`
@@ -56,6 +56,11 @@ type c13Input struct {
 	Restarts  bool             `json:"restarts,omitempty"` // restart + FileClient after every cache change
 	File      bool             `json:"file,omitempty"`     // the cache is a real setec.FileCache (recorded by a wrapper)
 	Ops       []c13Op          `json:"ops"`
+	Retain    string           `json:"retain,omitempty"`  // kind retain: "slice" = the cache keeps the very slice given to Write; "mem" = a real setec.MemCache (m.data = data)
+	Names2    []string         `json:"names2,omitempty"`  // kind life: the names declared by the SECOND start (run 1's plus new ones)
+	Server2   map[string]c13SV `json:"server2,omitempty"` // kind life: what the service can answer during the second start (nothing if dead2)
+	Dead2     bool             `json:"dead2,omitempty"`
+	CtxDone2  bool             `json:"ctx_done2,omitempty"` // the second start's context has ended before it begins (else: ends after 25 ms)
 	Conc      []c13Op          `json:"conc,omitempty"` // kind conc: calls made CONCURRENTLY after ops; the first one's Cache.Write is held
 	Note      string           `json:"note,omitempty"`
 	// trace / inject
@@ -138,6 +143,11 @@ type c13Cache struct {
 	backing   setec.Cache // if set: a real setec.FileCache holding the content
 	path      string
 	badMode   string // set when the file's permissions are not 0600 after a write
+	// retaining modes: the slices handed to Write are KEPT (not copied); keptAt = their bytes when written
+	retain string
+	mem    *setec.MemCache
+	kept   [][]byte
+	keptAt [][]byte
 	// every payload of the whole run, in the order the writes were OFFERED (Write entered) and LANDED
 	// (took effect); slowNext: the next Write sleeps that long (virtual time in a synctest bubble)
 	allOffered [][]byte
@@ -194,7 +204,16 @@ func (c *c13Cache) Write(d []byte) error {
 		}
 		return nil
 	}
-	c.data = bytes.Clone(d)
+	switch c.retain {
+	case "slice":
+		c.data = d // the very slice: the Cache contract does not promise a copy
+		c.kept, c.keptAt = append(c.kept, d), append(c.keptAt, bytes.Clone(d))
+	case "mem":
+		c.mem.Write(d) // the package's own MemCache: m.data = data
+		c.kept, c.keptAt = append(c.kept, d), append(c.keptAt, bytes.Clone(d))
+	default:
+		c.data = bytes.Clone(d)
+	}
 	return nil
 }
 
@@ -203,6 +222,9 @@ func (c *c13Cache) Read() ([]byte, error) {
 	defer c.mu.Unlock()
 	if c.failRead {
 		return nil, errors.New("cache read failed")
+	}
+	if c.retain == "mem" {
+		return c.mem.Read()
 	}
 	if c.backing != nil {
 		return c.backing.Read()
@@ -224,6 +246,9 @@ func (c *c13Cache) content() []byte {
 	if c.backing != nil {
 		bs, _ := os.ReadFile(c.path)
 		return bs
+	}
+	if c.retain == "mem" {
+		return []byte(c.mem.String())
 	}
 	return bytes.Clone(c.data)
 }
@@ -294,6 +319,26 @@ type c13Case struct {
 	Steps    []c13Step
 	Conc     *c13ConcObs
 	Slow     *c13SlowObs
+	Life     *c13LifeObs
+	Retain   *c13RetainObs
+}
+
+// a failed second start and the third start after it
+type c13LifeObs struct {
+	Names2  []string
+	Ans2    []c13Served
+	Now2    int64
+	OK2     bool
+	Writes2 []*c13J
+	RS      *c13Restart
+	FC      *c13FC
+}
+
+// the payloads a retaining cache still holds: as written / as they read at the end
+type c13RetainObs struct {
+	At  []*c13J
+	Now []*c13J // nil element: no longer parses
+	Bad int     // how many no longer parse
 }
 
 // the state at rest after a history with slow cache writes
@@ -386,6 +431,29 @@ func (c *c13Case) Coq() string {
 	hist := fmt.Sprintf("CHist %s %s %s %s %s %s %s %s %s %s %s %s %s %s",
 		c.tbl.Coq(), coqBool(c.RFail), cin, c13Names(c.Names), coqBool(c.Allow), c13Z(c.AgeNs), coqList(ia), c13Z(c.Now0),
 		c13Names(c.Probe), coqBool(c.ConsOK), c13Names(c.ConsReqs), coqBool(c.ConsWOK), c.Cons.Coq(), coqList(steps))
+	if c.Life != nil {
+		ws := make([]string, len(c.Life.Writes2))
+		for i, w := range c.Life.Writes2 {
+			ws[i] = w.Coq()
+		}
+		ia2 := make([]string, len(c.Life.Ans2))
+		for i, a := range c.Life.Ans2 {
+			ia2[i] = "(" + coqBytes([]byte(a.Name)) + "," + c13OptVV(a.Has, a.Ver, a.Val) + ")"
+		}
+		return fmt.Sprintf("CLife (%s) %s %s %s %s %s %s %s", hist, c13Names(c.Life.Names2), coqList(ia2), c13Z(c.Life.Now2),
+			coqBool(c.Life.OK2), coqList(ws), c.Life.RS.Coq(), c.Life.FC.Coq())
+	}
+	if c.Retain != nil {
+		ps := make([]string, len(c.Retain.At))
+		for i := range c.Retain.At {
+			now := "(Some None)"
+			if c.Retain.Now[i] != nil {
+				now = "(Some (Some " + c.Retain.Now[i].Coq() + "))"
+			}
+			ps[i] = "(" + c.Retain.At[i].Coq() + "," + now + ")"
+		}
+		return fmt.Sprintf("CRetain (%s) %s", hist, coqList(ps))
+	}
 	if c.Slow != nil {
 		trees := func(js []*c13J) string {
 			parts := make([]string, len(js))
@@ -612,7 +680,10 @@ func c13RunHist(in c13Input, workdir string) (*c13Case, string) {
 		}
 	}
 	r.cli = &c13Client{srv: srv}
-	r.cache = &c13Cache{data: bytes.Clone(in.Cache), failRead: in.ReadFail, failWrite: in.InitWFail}
+	r.cache = &c13Cache{data: bytes.Clone(in.Cache), failRead: in.ReadFail, failWrite: in.InitWFail, retain: in.Retain}
+	if in.Retain == "mem" {
+		r.cache.mem = setec.NewMemCache(string(in.Cache))
+	}
 	if in.File {
 		// a real FileCache in a fresh directory; an initial content is put there as a file
 		dir := filepath.Join(workdir, "fcache")
@@ -789,6 +860,32 @@ func c13RunHist(in c13Input, workdir string) (*c13Case, string) {
 	if in.Kind == "conc" && r.panicky == "" {
 		r.runConc(c)
 	}
+	if in.Kind == "life" && r.panicky == "" {
+		r.runLife(c)
+	}
+	if in.Kind == "retain" && r.panicky == "" {
+		// every slice the cache retained is looked at again, after all later flushes and Close
+		r.st.Close()
+		r.cache.take()
+		obs := &c13RetainObs{}
+		c.Retain = obs
+		r.cache.mu.Lock()
+		for i, at := range r.cache.keptAt {
+			ja, ok := c13Parse(at)
+			if !ok {
+				continue
+			}
+			obs.At = append(obs.At, ja)
+			if jn, ok := c13Parse(r.cache.kept[i]); ok {
+				r.tbl.addTree(jn)
+				obs.Now = append(obs.Now, jn)
+			} else {
+				obs.Now = append(obs.Now, nil)
+				obs.Bad++
+			}
+		}
+		r.cache.mu.Unlock()
+	}
 	if in.Kind == "slow" && r.panicky == "" {
 		// ample (virtual) time for any write still under way to land, then the state at rest
 		time.Sleep(10 * time.Minute)
@@ -817,6 +914,64 @@ func c13RunHist(in c13Input, workdir string) (*c13Case, string) {
 		r.panicky = r.cache.badMode
 	}
 	return c, r.panicky
+}
+
+// runLife: run 1 (the history so far, ended by Close) has left its cache.  Run 2 starts from it
+// with more declared names than the service can answer before the caller's context ends; what it
+// writes to the cache is recorded.  Run 3 starts from whatever the cache holds now, with run 1's
+// names and a dead service (plus a file client on the same bytes).
+func (r *c13Run) runLife(c *c13Case) {
+	in := r.in
+	r.st.Close()
+	r.cache.take()
+	r.cache.mu.Lock()
+	r.cache.failWrite = false
+	r.cache.mu.Unlock()
+	obs := &c13LifeObs{Names2: in.Names2, Now2: r.now}
+	c.Life = obs
+	srv2 := map[string]c13SV{}
+	if !in.Dead2 {
+		for k, v := range in.Server2 {
+			srv2[k] = v
+			r.tbl.addRaw(v.Val)
+		}
+	}
+	for _, n := range in.Names2 {
+		sv, ok := srv2[n]
+		obs.Ans2 = append(obs.Ans2, c13Served{Name: n, Has: ok, Ver: sv.Ver, Val: sv.Val})
+	}
+	cli2 := &c13Client{srv: srv2, dead: in.Dead2}
+	func() {
+		defer func() {
+			if p := recover(); p != nil {
+				r.panicky = fmt.Sprintf("the second start panicked: %v", p)
+			}
+		}()
+		ctx, cancel := context.WithTimeout(context.Background(), 25*time.Millisecond)
+		if in.CtxDone2 {
+			cancel()
+		}
+		defer cancel()
+		st2, err := setec.NewStore(ctx, setec.StoreConfig{
+			Client: cli2, Secrets: slices.Clone(in.Names2), AllowLookup: true, Cache: r.cache,
+			PollTicker: c13Ticker{make(chan time.Time)}, TimeNow: r.timeNow, Logf: func(string, ...any) {},
+		})
+		if err == nil {
+			obs.OK2 = true
+			st2.Close()
+		}
+	}()
+	for _, w := range r.cache.take() {
+		if j, ok := c13Parse(w); ok {
+			r.tbl.addTree(j)
+			obs.Writes2 = append(obs.Writes2, j)
+		} else {
+			obs.Writes2 = append(obs.Writes2, c13Str([]byte("unparsable payload")))
+		}
+	}
+	var so c13SObs
+	r.restart(&so)
+	obs.RS, obs.FC = so.RS, so.FC
 }
 
 // runConc makes the calls of in.Conc concurrently.  The Cache.Write of the first call is held on
